@@ -368,9 +368,11 @@ class Check:
         fails = [i for i in range(len(histories)) if impl[i] != model[i] or ora[i]]
         self.cov["counters"]["failing_histories" + ("_" + label if label else "")] = len(fails)
         examined = 0
+        t_shrink0 = time.time()
+        shrink_secs = float(os.environ.get("VERIF_SHRINK_SECS", "180"))
         for i in fails:
             what0 = self._what(label, impl[i], model[i], ora[i])
-            if examined >= 12 or len(self.violations) >= 8:
+            if examined >= 12 or len(self.violations) >= 8 or (examined >= 1 and time.time() - t_shrink0 > shrink_secs):
                 # not shrunk: classify the unshrunk history (known finding or violation)
                 if not self._known(what0, "\n".join(histories[i])):
                     if len(self.violations) < 12:
@@ -404,10 +406,12 @@ class Check:
         return bool(om) or im != mo
 
     def shrink(self, h, fails, budget=120):
-        """ddmin over the op lines of one history"""
+        """ddmin over the op lines of one history (bounded by evaluations and by wall time)"""
         h = list(h)
         n = 2
-        while len(h) >= 2 and budget > 0:
+        t0 = time.time()
+        limit = float(os.environ.get("VERIF_SHRINK_SECS", "180"))
+        while len(h) >= 2 and budget > 0 and time.time() - t0 < limit:
             chunk = max(1, len(h) // n)
             reduced = False
             for s in range(0, len(h), chunk):
